@@ -238,7 +238,7 @@ func (c *Trait) PrepareRead(ctx context.Context, cacheEntry *TraitEntry, found b
 			c.Stat.Add(ctx, MetricExpired, 1, "name", c.Config.Name)
 		}
 
-		return nil, errExpired{entry: cacheEntry}
+		return nil, errExpired{entry: cacheEntry, expiredAt: e}
 	}
 
 	if c.Stat != nil {
@@ -379,7 +379,8 @@ func (e TraitEntry) ExpireAt() time.Time {
 }
 
 type errExpired struct {
-	entry *TraitEntry
+	entry     *TraitEntry
+	expiredAt int64 // Expiration as seen by the read, entry may be updated by concurrent ExpireAll.
 }
 
 func (e errExpired) Error() string {
@@ -391,7 +392,7 @@ func (e errExpired) Value() interface{} {
 }
 
 func (e errExpired) ExpiredAt() time.Time {
-	return tsTime(atomic.LoadInt64(&e.entry.E))
+	return tsTime(e.expiredAt)
 }
 
 func (e errExpired) Is(err error) bool {
